@@ -160,6 +160,61 @@ impl T {
             _ => false,
         }
     }
+    /// the same type with the field lists of every record / variant and the method lists of every service in a random order
+    /// (field order carries no meaning: `TypeInner::Record(Vec<Field>)` can be built in any order)
+    pub fn shuffled(&self, r: &mut Rng) -> T {
+        fn sh<X>(r: &mut Rng, mut v: Vec<X>) -> Vec<X> { for i in (1..v.len()).rev() { let j = r.below(i as u64 + 1) as usize; v.swap(i, j); } v }
+        match self {
+            T::Prim(_) | T::Var(_) => self.clone(),
+            T::Opt(t) => T::Opt(Box::new(t.shuffled(r))),
+            T::Vec(t) => T::Vec(Box::new(t.shuffled(r))),
+            T::Rec(fs) => { let v = fs.iter().map(|(i, t)| (*i, t.shuffled(r))).collect(); T::Rec(sh(r, v)) }
+            T::Variant(fs) => { let v = fs.iter().map(|(i, t)| (*i, t.shuffled(r))).collect(); T::Variant(sh(r, v)) }
+            T::Func(a, rt, m) => T::Func(a.iter().map(|t| t.shuffled(r)).collect(), rt.iter().map(|t| t.shuffled(r)).collect(), m.clone()),
+            T::Serv(ms) => { let v = ms.iter().map(|(n, t)| (n.clone(), t.shuffled(r))).collect(); T::Serv(sh(r, v)) }
+            T::Class(a, t) => T::Class(a.iter().map(|t| t.shuffled(r)).collect(), Box::new(t.shuffled(r))),
+        }
+    }
+    /// every occurrence of the sub-term `target` replaced by `with`
+    pub fn replace_subterm(&self, target: &T, with: &T) -> T {
+        if self == target { return with.clone(); }
+        match self {
+            T::Prim(_) | T::Var(_) => self.clone(),
+            T::Opt(t) => T::Opt(Box::new(t.replace_subterm(target, with))),
+            T::Vec(t) => T::Vec(Box::new(t.replace_subterm(target, with))),
+            T::Rec(fs) => T::Rec(fs.iter().map(|(i, t)| (*i, t.replace_subterm(target, with))).collect()),
+            T::Variant(fs) => T::Variant(fs.iter().map(|(i, t)| (*i, t.replace_subterm(target, with))).collect()),
+            T::Func(a, rt, m) => T::Func(a.iter().map(|t| t.replace_subterm(target, with)).collect(), rt.iter().map(|t| t.replace_subterm(target, with)).collect(), m.clone()),
+            T::Serv(ms) => T::Serv(ms.iter().map(|(n, t)| (n.clone(), t.replace_subterm(target, with))).collect()),
+            T::Class(a, t) => T::Class(a.iter().map(|t| t.replace_subterm(target, with)).collect(), Box::new(t.replace_subterm(target, with))),
+        }
+    }
+    /// proper composite sub-terms (not the type itself, no leaves)
+    pub fn proper_subterms(&self) -> Vec<T> {
+        fn go(t: &T, top: bool, out: &mut Vec<T>) {
+            if !top && !matches!(t, T::Prim(_) | T::Var(_)) { out.push(t.clone()); }
+            match t {
+                T::Opt(x) | T::Vec(x) => go(x, false, out),
+                T::Rec(fs) | T::Variant(fs) => for f in fs { go(&f.1, false, out) },
+                T::Func(a, r, _) => for x in a.iter().chain(r.iter()) { go(x, false, out) },
+                T::Serv(ms) => for m in ms { go(&m.1, false, out) },
+                T::Class(a, x) => { for y in a { go(y, false, out) } go(x, false, out) }
+                _ => {}
+            }
+        }
+        let mut out = vec![]; go(self, true, &mut out); out
+    }
+    pub fn mentions(&self, name: &str) -> bool {
+        match self {
+            T::Var(x) => x == name,
+            T::Prim(_) => false,
+            T::Opt(t) | T::Vec(t) => t.mentions(name),
+            T::Rec(fs) | T::Variant(fs) => fs.iter().any(|f| f.1.mentions(name)),
+            T::Func(a, r, _) => a.iter().chain(r.iter()).any(|t| t.mentions(name)),
+            T::Serv(ms) => ms.iter().any(|m| m.1.mentions(name)),
+            T::Class(a, t) => a.iter().any(|t| t.mentions(name)) || t.mentions(name),
+        }
+    }
     pub fn rename(&self, f: &dyn Fn(&str) -> String) -> T {
         match self {
             T::Prim(_) => self.clone(),
